@@ -530,6 +530,8 @@ class Engine:
     def st_FunctionDef(self, s):
         self.closures[s.name] = s
 
+    st_AsyncFunctionDef = st_FunctionDef
+
     def st_Return(self, s):
         raise _Return(self.ev(s.value) if s.value is not None else NONE)
 
@@ -861,17 +863,21 @@ class Engine:
             self.path_label.pop()
         names, attrs, mutated, calls = self._collect_effects(s.body)
         for n in sorted(names | {m for m in mutated if m in st.env}):
-            if n in st.env:
+            if n in spec.get("havoc_sorts", {}):
+                facts_: List[Any] = []
+                st.env[n] = fresh_of_sort(parse_sort(spec["havoc_sorts"][n]), n, facts_)
+                st.pc.extend(facts_)
+            elif n in st.env:
                 st.env[n] = self._havoc_value(st.env[n], n)
         for a in sorted(attrs | {m for m in mutated if "." in m}):
-            try:
-                node = ast.parse(a, mode="eval").body
-                objv = self.ev(node.value)
-                if objv.k == "obj":
-                    cur = self.heap_get(objv, node.attr)
-                    self.heap_set(objv, node.attr, self._havoc_value(cur, a))
-            except OutOfReach:
-                raise
+            node = ast.parse(a, mode="eval").body
+            root = a.split(".")[0]
+            if root not in st.env:
+                continue        # the object is created inside the loop body: nothing of it exists at the loop head
+            objv = self.ev(node.value)
+            if objv.k == "obj":
+                cur = self.heap_get(objv, node.attr)
+                self.heap_set(objv, node.attr, self._havoc_value(cur, a))
         # contract callees in the body: havoc their frames
         for call in calls:
             self._havoc_call_frame(call)
@@ -896,6 +902,11 @@ class Engine:
             self.heap_set(recv, f, self._havoc_value(cur, f"{recv.t}.{f}"))
 
     def _loop_preserve(self, spec, lab, env):
+        for cl in spec.get("iter_post", []):
+            g = self.clause_bool(cl, self.st, self.entry, env)
+            self.path_label.append(lab + "iter")
+            self.emit("iter-post", g, clause=cl)
+            self.path_label.pop()
         for inv in spec["inv"]:
             g = self.clause_bool(inv, self.st, self.entry, env)
             self.path_label.append(lab + "keep")
@@ -1116,6 +1127,10 @@ class Engine:
                 return self.pyval(getattr(obj.t, n.attr))
             except AttributeError:
                 raise OutOfReach(f"py attr {n.attr}")
+        if obj.k == "opaque":
+            # attribute of an unmodelled object: an opaque pure read (same value for the same object and attribute)
+            fn_ = z3.Function(f"attr_{n.attr}", opaque_sort(obj.cls), opaque_sort("Any"))
+            return V("opaque", fn_(obj.t), "Any")
         raise OutOfReach(f"{self.c.key}: attribute {n.attr} of {obj.k}")
 
     def ev_attr_of(self, obj, attr):
@@ -1620,6 +1635,8 @@ class Engine:
         if base.k in ("obj", "opaque"):
             # block / variable lookup on message-like data: an opaque pure read (assumption recorded)
             self.used_assumptions.append("subscript lookups on message/block data are pure reads that do not raise")
+            if not self.spec_mode:
+                self.st.calls.setdefault("getitem:" + ast.unparse(n.value), []).append({})
             fn_ = z3.Function("lookup_" + (base.cls or "Any"), *( [opaque_sort(base.cls)] if base.k == "opaque" else []), z3.IntSort(), opaque_sort("Any"))
             key = z3.Int(fresh_name("key"))
             return V("opaque", z3.Const(fresh_name("item"), opaque_sort("Any")), "Any")
@@ -1654,6 +1671,11 @@ class Engine:
             self.st.calls.setdefault("store:" + ast.unparse(t.value), []).append({"key": key, "value": v})
             return
         raise OutOfReach(f"{self.c.key}: subscript store on {base.k}")
+
+    def ev_Await(self, n):
+        # per-activation obligations only: no interleaving with other tasks is modelled (listed assumption)
+        self.used_assumptions.append("await points: other tasks' interleavings are not modelled; obligations are per activation")
+        return self.ev(n.value)
 
     def ev_Lambda(self, n):
         return V("func", n)
@@ -1951,6 +1973,8 @@ class Engine:
                 return v
             raise OutOfReach(f"tuple({v.k})")
         if nm == "str":
+            for a_ in n.args:
+                self.ev(a_)          # evaluation of the argument may raise
             return V("str", z3.String(fresh_name("str")))
         if nm == "list":
             if not n.args:
@@ -2151,6 +2175,9 @@ class Engine:
                     a2[nn - 1] == x, n2 == nn)))
                 self.store_back(f.value, V("ilist", (a2, n2, ml)))
                 return NONE
+            if meth == "clear":
+                self.store_back(f.value, V("ilist", (z3.K(z3.IntSort(), z3.IntVal(0)), z3.IntVal(0), ml)))
+                return NONE
             if meth == "insert":
                 idx = z3.simplify(self.as_int(self.ev(n.args[0])))
                 x = self.as_int(self.ev(n.args[1]))
@@ -2170,6 +2197,12 @@ class Engine:
             d = f"{recv.cls}.{meth}"
             if d in self.c.externals:
                 return self.ext_call(self.c.externals[d], d, n, recv)
+        if recv.k in ("opaque", "opt", "none") and f"*.{meth}" in self.c.externals:
+            if recv.k in ("opt", "none") and not self.spec_mode:
+                isnone = recv.t[0] if recv.k == "opt" else z3.BoolVal(True)
+                if self.branch(isnone, f"nonecall{getattr(n, 'lineno', 0) - self.x.lineno}"):
+                    raise PyRaise("AttributeError")
+            return self.ext_call(self.c.externals[f"*.{meth}"], f"*.{meth}", n)
         raise OutOfReach(f"{self.c.key}: method {meth} on {recv.k}{':'+recv.cls if recv.cls else ''}")
 
     def construct(self, cd, n: ast.Call) -> V:
@@ -2349,8 +2382,24 @@ class Engine:
                     args.append(NONE)
                 else:
                     raise
+        kwvals = {}
+        for kw_ in n.keywords:
+            if kw_.arg:
+                try:
+                    kwvals[kw_.arg] = self.ev(kw_.value)       # evaluating an argument may itself raise / fork
+                except OutOfReach:
+                    if not summ.get("ignore_args"):
+                        raise
         self.used_assumptions.append(f"external {d}: {summ.get('doc', 'declared summary')}")
         lab = f"ext{getattr(n, 'lineno', 0) - self.x.lineno}"
+        if summ.get("pure"):
+            # a pure observer: the same call yields the same value along a path
+            cache = self.st.ghost.setdefault("__pure__", {})
+            if d in cache:
+                return cache[d]
+            r_ = self.ext_result(summ, d)
+            cache[d] = r_
+            return r_
         if summ.get("record_as"):
             self.st.calls.setdefault(summ["record_as"], []).append({f"arg{i}": a for i, a in enumerate(args)})
         mr = summ.get("may_raise")
@@ -2379,9 +2428,8 @@ class Engine:
             env["result"] = res
             for i, a in enumerate(args):
                 env[f"arg{i}"] = a
-            for kw_ in n.keywords:
-                if kw_.arg:
-                    env[f"kw_{kw_.arg}"] = self.ev(kw_.value)
+            for k_, v_ in kwvals.items():
+                env[f"kw_{k_}"] = v_
             for p in ([post] if isinstance(post, str) else post):
                 self.assume(self.clause_bool(p, self.st, self.st, env))
         return res
